@@ -34,6 +34,7 @@ pub struct RefDecoder {
     pub sequential_only: bool,     // complain if chunks of another csid arrive mid-message
     current: Option<u32>,
     pub hdr_bytes: Vec<u8>,        // header bytes of the chunks read since the caller last cleared it
+    pub seq_violation: bool,       // the stream left the "sequential, strictly conformant sender" class (Spec.Chunk.decodeSeq)
 }
 
 pub enum Res {
@@ -43,7 +44,7 @@ pub enum Res {
 
 impl RefDecoder {
     pub fn new(strict: bool) -> Self {
-        RefDecoder { cs: 128, streams: HashMap::new(), strict, notes: vec![], sequential_only: false, current: None, hdr_bytes: vec![] }
+        RefDecoder { cs: 128, streams: HashMap::new(), strict, notes: vec![], sequential_only: false, current: None, hdr_bytes: vec![], seq_violation: false }
     }
 
     /// decode a complete byte string; returns messages in completion order
@@ -73,6 +74,7 @@ impl RefDecoder {
             x => x as u32,
         };
         if csid < 2 { return Err(Res::Err("csid below 2".into())); }
+        if let Some(c) = self.current { if c != csid { self.seq_violation = true; } }
         if self.sequential_only {
             if let Some(c) = self.current { if c != csid { self.notes.push(format!("chunk on csid {} while a message on csid {} is in flight", csid, c)); } }
         }
@@ -103,6 +105,7 @@ impl RefDecoder {
                 1 | 2 => { delta = value; ts = st.ts.wrapping_add(delta); }
                 _ => {
                     delta = st.delta; ts = st.ts.wrapping_add(delta);
+                    if let Some(e) = ext { if e != st.delta { self.seq_violation = true; } }
                     if self.strict { if let Some(e) = ext { if e != st.delta { self.notes.push(format!("type-3 extended timestamp {} differs from the delta in force {}", e, st.delta)); } } }
                 }
             }
@@ -128,6 +131,7 @@ impl RefDecoder {
             if typ == 1 && data.len() >= 4 {
                 let v = u32::from_be_bytes([data[0], data[1], data[2], data[3]]);
                 if v >= 1 && v <= 0x7FFFFFFF { self.cs = v as usize; }
+                if v == 0 { self.seq_violation = true; }
             }
             out.push(RMsg { typ, msid, ts, data });
         } else {
